@@ -15,7 +15,7 @@ lazy_static! {
 pub fn create(array: InstructionWithStr) -> Result<Instruction, Error> {
     let op = UnaryOperator::Product;
     let return_type = array.return_type();
-    if !return_type.matches(&ACCEPTED_TYPE) {
+    if !return_type.matches(&ACCEPTED_TYPE) || return_type.iter_element().is_none() {
         return Err(Error::IncorectUnaryOperatorOperand {
             ins: array.str,
             op,
